@@ -7,6 +7,8 @@ Nothing here imports autograd.
 """
 import math
 
+import numpy as _np
+
 
 class RV:
     """A reference value: float plus the id of the tape entry that produced it (None for constants)."""
@@ -95,8 +97,9 @@ BUILTIN = {
     "sub": (2, lambda x, y: x - y, [lambda x, y: 1.0, lambda x, y: -1.0]),
     "mul": (2, lambda x, y: x * y, [lambda x, y: y, lambda x, y: x]),
     "div": (2, lambda x, y: x / (y * y + 1.0), [lambda x, y: 1.0 / (y * y + 1.0), lambda x, y: -2.0 * x * y / (y * y + 1.0) ** 2]),
-    "sin": (1, lambda x: math.sin(x), [lambda x: math.cos(x)]),
-    "exp": (1, lambda x: math.exp(0.3 * x), [lambda x: 0.3 * math.exp(0.3 * x)]),
-    "tanh": (1, lambda x: math.tanh(x), [lambda x: 1.0 - math.tanh(x) ** 2]),
+    # numpy scalar kernels, so that the primal path is bit-identical to what autograd.numpy evaluates
+    "sin": (1, lambda x: float(_np.sin(x)), [lambda x: float(_np.cos(x))]),
+    "exp": (1, lambda x: float(_np.exp(0.3 * x)), [lambda x: 0.3 * float(_np.exp(0.3 * x))]),
+    "tanh": (1, lambda x: float(_np.tanh(x)), [lambda x: 1.0 - float(_np.tanh(x)) ** 2]),
     "sq": (1, lambda x: x * x, [lambda x: 2.0 * x]),
 }
